@@ -29,3 +29,12 @@ Definition api_case := (entry * bytes * N)%type.
 Definition api_code (c : api_case) : N :=
   let '(e, n, outcome) := c in
   code_of (predicted e n =? outcome) (negb (outcome =? 2)).
+
+(** * channel pages: a resource name is scoped to its page.  One entry per (page, name):
+    the marker (stream bytes) registered on that page under that name, and the decoded stream
+    the name resolves to on that page after writing and re-opening (None: missing/unreadable). *)
+Definition page_res := (N * bytes * bytes * option bytes)%type.
+Definition res_ok (r : page_res) : bool :=
+  let '(_, _, expected, found) := r in
+  match found with Some f => bytes_eqb expected f | None => false end.
+Definition pages_code (c : list page_res) : N := code_of true (forallb res_ok c).
